@@ -88,7 +88,10 @@ def ubm_arg(case):
     ubm = sut.make_gmm(case["ubm"])
     if case["ubm_as_map"]:
         adapted = sut.GMMMachine(n_gaussians=case["ubm"]["C"], trainer="map", ubm=ubm)
-        adapted.means = np.array(case["ubm"]["means"]) + 0.37  # a MAP machine whose own means differ from its prior's
+        # a MAP machine whose OWN means and variances differ from its prior's (as after adaptation with
+        # update_variances): linear scoring must use the prior's parameters throughout
+        adapted.means = np.array(case["ubm"]["means"]) + 0.37
+        adapted.variances = np.array(case["ubm"]["variances"]) * 1.7
         return adapted
     return ubm
 
